@@ -21,21 +21,28 @@ pub mod verif_export {
 "#;
     fs::write(Path::new(&out).join("mstsc_plain.rs"), format!("{}{}", src, export_plain)).unwrap();
 
-    let anchors = [
-        ("use std::thread;", "use shuttle::thread;"),
-        ("use std::sync::{mpsc, Arc, Mutex};", "use shuttle::sync::{mpsc, Arc, Mutex};"),
-        ("use std::thread::{JoinHandle};", "use shuttle::thread::{JoinHandle};"),
-        ("use std::sync::atomic::{AtomicBool, Ordering};", "use shuttle::sync::atomic::{AtomicBool, Ordering};"),
-        ("use std::sync::mpsc::{Receiver, Sender};", "use shuttle::sync::mpsc::{Receiver, Sender};"),
-        ("use libc::{select, fd_set, FD_SET};", "use crate::fake_fd::{select, fd_set, FD_SET};"),
-    ];
-    let mut s = src.clone();
-    for (from, to) in anchors.iter() {
-        let n = s.matches(from).count();
-        if n != 1 {
-            panic!("VERIF-ANCHOR: expected exactly one occurrence of `{}` in mstsc-rs.rs, found {}", from, n);
+    // rewrite the imports of the synchronisation primitives and of the descriptor API by prefix, whatever the
+    // imported item list is (a change may add e.g. `timeval` or `Condvar`): std::thread -> shuttle::thread,
+    // std::sync -> shuttle::sync, libc -> the modelled descriptor
+    let rules = [("use std::thread", "use shuttle::thread"), ("use std::sync::", "use shuttle::sync::"), ("use libc::{", "use crate::fake_fd::{")];
+    let mut s = String::new();
+    let mut hits = [0usize; 3];
+    for line in src.lines() {
+        let t = line.trim_start();
+        let mut out = line.to_string();
+        for (k, (from, to)) in rules.iter().enumerate() {
+            if t.starts_with(from) {
+                out = line.replacen(from, to, 1);
+                hits[k] += 1;
+            }
         }
-        s = s.replace(from, to);
+        s.push_str(&out);
+        s.push('\n');
+    }
+    for (k, (from, _)) in rules.iter().enumerate() {
+        if hits[k] == 0 {
+            panic!("VERIF-ANCHOR: no import line starting with `{}` in mstsc-rs.rs", from);
+        }
     }
     let export_shuttle = r#"
 
